@@ -1,6 +1,8 @@
 package main
 
 import (
+	"sort"
+	"os"
 	"fmt"
 	"go/token"
 	"go/types"
@@ -247,10 +249,10 @@ func (ex *Exec) callFunction(fr *Frame, st *State, callee *ssa.Function, args []
 	if spec := ex.prog.externFor(name); spec != nil {
 		return ex.callSpec(fr, st, spec, args, retT, site)
 	}
-	if len(callee.Blocks) > 0 && ex.prog.inRepo(callee) && len(ex.stack) < 6 && !ex.onStack(callee) {
+	if len(callee.Blocks) > 0 && ex.prog.inRepo(callee) && len(ex.stack)-ex.stackBase < 6 && !ex.onStack(callee) {
 		return ex.inlineCall(fr, st, callee, args, bindings, retT, site)
 	}
-	if callee.Synthetic != "" && len(callee.Blocks) > 0 && len(ex.stack) < 6 && !ex.onStack(callee) {
+	if callee.Synthetic != "" && len(callee.Blocks) > 0 && len(ex.stack)-ex.stackBase < 6 && !ex.onStack(callee) {
 		// wrappers / bound methods / thunks
 		return ex.inlineCall(fr, st, callee, args, bindings, retT, site)
 	}
@@ -332,6 +334,9 @@ func (ex *Exec) unknownCall(st *State, name string, args []*Value, retT types.Ty
 	ex.abstracted++
 	if ex.discover != nil {
 		ex.discover.all = true
+		if os.Getenv("GOVC_DEBUG_FRAMES") != "" {
+			fmt.Fprintf(os.Stderr, "FRAME-ALL unknown callee %s\n", name)
+		}
 	}
 	ex.havocAllHeap(st)
 	ex.havocExposedLocals(st, args)
@@ -421,6 +426,9 @@ func (ex *Exec) callSpec(fr *Frame, st *State, c *FuncContract, args []*Value, r
 	default:
 		if ex.discover != nil {
 			ex.discover.all = true
+			if os.Getenv("GOVC_DEBUG_FRAMES") != "" {
+				fmt.Fprintf(os.Stderr, "FRAME-ALL contract without frame: %s\n", c.Name)
+			}
 		}
 		ex.havocAllHeap(st)
 		ex.havocExposedLocals(st, args)
@@ -514,10 +522,15 @@ func (ex *Exec) frameOf(fn *ssa.Function) *writeSet {
 	}
 	ws := newWriteSet()
 	ex.frames[fn] = &writeSet{all: true, heap: map[string]heapKeyInfo{}, locals: map[*ssa.Alloc]bool{}} // recursion guard
-	if ex.onStack(fn) || len(ex.stack) > 8 {
+	if ex.onStack(fn) || len(ex.stack) > 40 {
 		ws.all = true
 		return ws
 	}
+	// the inlining budget counts from here: a frame is computed once per function, so
+	// nesting depth does not multiply work
+	savedBase := ex.stackBase
+	ex.stackBase = len(ex.stack)
+	defer func() { ex.stackBase = savedBase }()
 	saved := ex.discover
 	savedPath := ex.inlinePath
 	if saved == nil {
@@ -548,6 +561,18 @@ func (ex *Exec) frameOf(fn *ssa.Function) *writeSet {
 	ws.locals = map[*ssa.Alloc]bool{}
 	ex.frames[fn] = ws
 	ex.frameParams[fn] = params
+	if os.Getenv("GOVC_DEBUG_FRAMES") != "" {
+		var ks []string
+		for k, info := range ws.heap {
+			w := "precise"
+			if info.wide || len(info.refs) == 0 {
+				w = "wide"
+			}
+			ks = append(ks, k+":"+w)
+		}
+		sort.Strings(ks)
+		fmt.Fprintf(os.Stderr, "FRAME %s all=%v classes=%v %s\n", fn.String(), ws.all, ws.classes, strings.Join(ks, " "))
+	}
 	return ws
 }
 
@@ -664,6 +689,9 @@ func (ex *Exec) applyModifies(env *Env, st *State, m ModTarget) {
 	case "all":
 		if ex.discover != nil {
 			ex.discover.all = true
+			if os.Getenv("GOVC_DEBUG_FRAMES") != "" {
+				fmt.Fprintf(os.Stderr, "FRAME-ALL modifies all\n")
+			}
 		}
 		ex.havocAllHeap(st)
 	case "foreign", "data", "maps":
@@ -708,6 +736,9 @@ func (ex *Exec) applyModifies(env *Env, st *State, m ModTarget) {
 				// unknown dynamic value: cannot tell what it designates
 				if ex.discover != nil {
 					ex.discover.all = true
+					if os.Getenv("GOVC_DEBUG_FRAMES") != "" {
+						fmt.Fprintf(os.Stderr, "FRAME-ALL modifies through unknown interface value: %s\n", fmt.Sprintf("%#v", m.Expr))
+					}
 				}
 				ex.havocAllHeap(st)
 				return
